@@ -26,6 +26,7 @@ for f in "$V"/selftest/*.diff; do
   case "$id" in
     preempt-*) prop=C16 ;;
     c14-*) prop=C14 ;;
+    c16-*) prop=C16 ;;
     *) prop=C13 ;;
   esac
   jobs+=("selftest|$f|$prop|1")
